@@ -16,7 +16,7 @@ from pyvc.contract import Contract, Loop, Registry
 from pyvc.core import mk_cons
 from pyvc.specfn import SpecLib
 from pyvc.symex import World
-from pyvc.values import BOOL, INT, V, VBool, VCls, VOpt, VSeq, VU, opt_of, seq_of
+from pyvc.values import BOOL, INT, NONE, STR, V, VBool, VCls, VOpt, VPy, VSeq, VStr, VU, opt_of, seq_of
 from pyvc.verify import Lemma
 
 from .node_common import NodeVocab
@@ -79,6 +79,15 @@ def build():
 
     world.py_eq_hooks.insert(0, py_eq)
 
+    def call_cid(m, func, a, kw, nd):
+        if isinstance(func, VPy) and func.obj == ("setattr",) and isinstance(a[0], VU) and a[0].sort == REF and getattr(a[1], "obj", None) == "content_id":
+            c = m.ctx.cell(m.global_syms["CID"].addr)
+            c.value = VMap(z3.Store(c.value.term, a[0].term, c.value.sort.opt.some(a[2]).term), c.value.sort)
+            return NONE
+        return NotImplemented
+
+    world.call_hooks.insert(0, call_cid)
+
     def isinst(m, v, cls):
         if isinstance(v, VU) and v.sort == REF and isinstance(cls, VSeq) and cls.sort == SCLS:
             return inst_any(nv.cls_of(v.term), cls.term)
@@ -118,10 +127,90 @@ def build():
                    ensures=["result == first_of_class(classes_of(ancestor_class), exact_type, lchain(self))"],
                    loops={1: Loop(inv=["first_of_class(ancestor_classes, exact_type, done1) is None", "seq1 == lchain(self)"])},
                    note="the nearest ancestor whose class passes the test (exact class, or isinstance), None when there is none"))
+    # ---- content-id propagation: _reset_content_id recomputes the node and every ancestor, bottom-up ------------------------------------------------
+    from pyvc.maps import VMap, map_sort
+    from pyvc.qpred import QPred, instantiator
+    from pyvc.values import NONE, STR, VPy, VStr
+    CM = map_sort(REF, STR)
+    lkids = lib.fn("lkids", [REF], SR)
+    cid_def = z3.Function("content_id_of", REF.z3(), CM.z3(), z3.StringSort())      # sha256 over class name, properties and the children's *current* content ids
+    is_kid = lambda c, n: z3.Contains(lkids.t(n), z3.Unit(c))
+    agree = QPred("agree_on_children", [CM.z3(), CM.z3(), REF.z3()], REF.z3(), lambda a, c: z3.Implies(is_kid(c, a[2]), z3.Select(a[0], c) == z3.Select(a[1], c)))
+    lib.extra_instantiators.append(instantiator([agree]))
+
+    def cid_instances(formulas):
+        """extensionality of content_id_of in the children's entries; a child reports its parent (and sits one rank lower)"""
+        out, seen, stack, cids, kids = [], set(), list(formulas), [], []
+        while stack:
+            f = stack.pop()
+            if not z3.is_app(f) or f.get_id() in seen:
+                continue
+            seen.add(f.get_id())
+            if f.decl().name() == "content_id_of":
+                cids.append(f)
+            if f.decl().kind() == z3.Z3_OP_SEQ_CONTAINS and z3.is_app(f.arg(0)) and f.arg(0).decl().name() == "lkids" and f.arg(1).decl().kind() == z3.Z3_OP_SEQ_UNIT:
+                kids.append((f, f.arg(1).arg(0), f.arg(0).arg(0)))
+            stack.extend(f.children())
+        for a in cids:
+            for b in cids:
+                if a.get_id() < b.get_id() and a.arg(0).eq(b.arg(0)):
+                    out.append(z3.Implies(agree.t(a.arg(1), b.arg(1), a.arg(0)), a == b))
+                    out.append(z3.Implies(agree.t(b.arg(1), a.arg(1), a.arg(0)), a == b))
+        for f, c, n in kids:
+            out.append(z3.Implies(f, z3.And(lparent(c) == OREF.some(REF.wrap(n)).term, rank(c) == rank(n) + 1, rank(n) >= 0)))
+        return out
+
+    lib.extra_instantiators.append(cid_instances)
+
+    def chain_instances(formulas):
+        """two facts about membership in a parent chain, proved below by induction along the chain (lemmas chain-closed-under-parent, chain-ranks-below)"""
+        out, seen, stack, mems = [], set(), list(formulas), []
+        while stack:
+            f = stack.pop()
+            if not z3.is_app(f) or f.get_id() in seen:
+                continue
+            seen.add(f.get_id())
+            if f.decl().name() == "seq_mem" and z3.is_app(f.arg(0)) and f.arg(0).decl().name() == "lchain":
+                mems.append(f)
+            stack.extend(f.children())
+        for f in mems:
+            s_, n_ = f.arg(0).arg(0), f.arg(1)
+            out.append(z3.Implies(f, rank(n_) < rank(s_)))
+            out.append(z3.Implies(z3.And(f, z3.Not(OREF.is_none(lparent(n_)))), mem.t(lchain.t(s_), OREF.val(lparent(n_)))))
+        return out
+
+    chain_instances.encodes = {"chain-closed-under-parent", "chain-ranks-below"}
+    lib.extra_instantiators.append(chain_instances)
+    on_path = lambda k, n: z3.Or(k == n, mem.t(lchain.t(n), k))
+    sf.update({"content_id_of": lambda n, M: VStr(cid_def(nv.ref(n), M.term)),
+               "mget": lambda mp, k: VOpt(z3.Select(mp.term, mp.sort.key.coerce(k).term), mp.sort.opt),
+               "mset": lambda mp, k, v: VMap(z3.Store(mp.term, mp.sort.key.coerce(k).term, mp.sort.opt.some(v).term), mp.sort),
+               "on_path": lambda k, n: VBool(on_path(nv.ref(k), nv.ref(n))),
+               "on_rest": lambda k, po: VBool(z3.And(z3.Not(OREF.is_none(OREF.coerce(po).term)), on_path(nv.ref(k), OREF.val(OREF.coerce(po).term)))),
+               "lrank": lambda n: __import__("pyvc.values", fromlist=["VInt"]).VInt(rank(nv.ref(n))),
+               "rank_above": lambda k, po: VBool(z3.Or(OREF.is_none(OREF.coerce(po).term), rank(nv.ref(k)) > rank(OREF.val(OREF.coerce(po).term))))})
+    GC = {"CID": "Dict[Ref,str]"}
+    A(Contract(f"{LM}:AwareASTNode._set_content_id", params={"self": "Ref"}, props=P, globals=GC, modifies=["CID"], trusted=True,
+               trusted_reason="sha256 over the class name, the name-sorted comparable properties and the children's current content ids (sorted by field and index): a function "
+                              "content_id_of(node, CID) that depends on CID only through the entries of the node's children (extensionality, instantiated by the generator); "
+                              "bounded: rt.c18 compares every attached node's content_id with that of an independently rebuilt equal tree",
+               ensures=["CID == mset(old(CID), self, content_id_of(self, old(CID)))"]))
+    PROC = "(on_path(k, self) and not on_rest(k, node))"
+    A(Contract(f"{LM}:AwareASTNode._reset_content_id", params={"self": "Ref"}, props=P, globals=GC, modifies=["CID"], ghost={"k": "Ref"},
+               locals={"node": "Opt[Ref]"},
+               ensures=["implies(on_path(k, self), mget(CID, k) == content_id_of(k, CID))",
+                        "implies(not on_path(k, self), mget(CID, k) == mget(old(CID), k))"],
+               loops={1: Loop(inv=[f"implies({PROC}, mget(CID, k) == content_id_of(k, CID))",
+                                   f"implies(not {PROC}, mget(CID, k) == mget(old(CID), k))",
+                                   "implies(node is not None, on_path(node, self))",
+                                   f"implies({PROC}, rank_above(k, node))"])},
+               note="for an arbitrary node k: afterwards the node itself and every ancestor carry the content id computed from their children's *final* ids (each is recomputed "
+                    "after everything below it on the path), and no other node's content id is touched"))
+    world.trusted_notes.append("a child reports its parent (lparent(c) == n for c in lkids(n)) and sits one rank below it -- the C18 invariant, used for the content-id path only")
     world.trusted_notes.append("the parent relation of the legacy forest is acyclic (a rank function exists); `==` between legacy nodes is the dataclass-generated "
                                "content-and-origin equality, implied by identity")
     return world, lib, reg, lemmas(lib, nv, dict(first_of=first_of, classtest=classtest, OREF=OREF, SR=SR, SCLS=SCLS, lchain=lchain, ochain=ochain, lparent=lparent, mem=mem, idx=idx,
-                                                 defs=(mem_empty, mem_cons, idx_empty, idx_cons, mem_chain, idx_chain)))
+                                                 defs=(mem_empty, mem_cons, idx_empty, idx_cons, mem_chain, idx_chain), rank=rank))
 
 
 def lemmas(lib, nv, d):
@@ -156,5 +245,19 @@ def lemmas(lib, nv, d):
     def idx_unfold(bank):
         return defs, idx.t(lchain.t(n), x) == idx_chain(n, x)
 
-    return [Lemma("first_of_class-concat", [("base", base), ("step", step)], ["C18"]),
+    # along a chain (induction on its length, i.e. on the rank of the start node: the hypothesis is the statement for the parent)
+    rank = d["rank"]
+    s0, n0 = z3.Const("s_ch", REF.z3()), z3.Const("n_ch", REF.z3())
+    ps = OREF.val(lparent(s0))
+    closed = lambda a: z3.Implies(z3.And(mem.t(lchain.t(a), n0), z3.Not(OREF.is_none(lparent(n0)))), mem.t(lchain.t(a), OREF.val(lparent(n0))))
+    below = lambda a: z3.Implies(mem.t(lchain.t(a), n0), rank(n0) < rank(a))
+    mentions = [lchain.t(OREF.val(lparent(n0))) == lchain.t(OREF.val(lparent(n0)))]
+    chain_lemmas = [
+        Lemma("chain-closed-under-parent", [("root", lambda bank: ([OREF.is_none(lparent(s0))], closed(s0))),
+                                            ("step", lambda bank: ([z3.Not(OREF.is_none(lparent(s0))), closed(ps)] + mentions, closed(s0)))], ["C18"], uses=["seq_mem-chain"],
+              note="an ancestor's parent is an ancestor"),
+        Lemma("chain-ranks-below", [("root", lambda bank: ([OREF.is_none(lparent(s0))], below(s0))),
+                                    ("step", lambda bank: ([z3.Not(OREF.is_none(lparent(s0))), below(ps)], below(s0)))], ["C18"], uses=["seq_mem-chain"],
+              note="every ancestor has a smaller rank (acyclicity, along the chain)")]
+    return chain_lemmas + [Lemma("first_of_class-concat", [("base", base), ("step", step)], ["C18"]),
             Lemma("seq_mem-chain", [("unfold", mem_unfold)], ["C18"]), Lemma("seq_index-chain", [("unfold", idx_unfold)], ["C18"])]
